@@ -537,9 +537,11 @@ void StatementBuilder::iteration_end(const char* name)
     auto statement = get_block().pop_stat();
 
     if (!get_block().empty()) {
-        // If the syntax is wrong, we won't have anything in blocks.back()
+        // If the syntax is wrong, we won't have anything in blocks.back(),
+        // or something that is not the loop (its body was lost to error recovery)
         /* Add statement to loop construction.  */
-        static_cast<IterationStatement*>(get_block().back())->stat = std::move(statement);
+        if (auto* loop = dynamic_cast<IterationStatement*>(get_block().back()); loop != nullptr)
+            loop->stat = std::move(statement);
     }
 
     /* Restore the frame pointer.
